@@ -107,7 +107,7 @@ PROPERTY_ASSUMPTIONS = {
 }
 GAPS = {
     'C11': ['COOMatrix/CSCMatrix/CSRMatrix (scipy.sparse construction, lexsort index maps, np.add.at accumulation): bounded tiers only', 'DenseMatrix._build (repeated-entry decision) and the COO fallback path of DenseMatrix', 'DenseMatrix._update_dtype / complex-step dtype switches: bounded tiers only', 'SplitJacobian._apply / _get_split_subjacs (which factor and src_indices each sub-jacobian gets)', 'scipy-format sub-jacobian kernels (assumed: scipy @ and .T)'],
-    'C02': ['Group._apply_linear / System recursion and scaling contexts', 'linear solvers (LAPACK/SuperLU/Krylov) in fwd vs rev', 'scipy-format sub-jacobians (COO/CSR/CSCSubjac use scipy @ and .T: assumed)', 'assembled matrices _prod (C11)', 'DictionaryJacobian._apply for implicit components, compute_jacvec_product, matrix-free components', 'Problem-level <w, J v> = <J^T w, v>'],
+    'C02': ['Group._apply_linear / System recursion and scaling contexts', 'linear solvers (LAPACK/SuperLU/Krylov, LinearRHSChecker solution cache) in fwd vs rev: BOUNDED model tier only', 'scipy-format sub-jacobians (COO/CSR/CSCSubjac use scipy @ and .T: assumed)', 'assembled matrices _prod (C11)', 'DictionaryJacobian._apply for implicit components, compute_jacvec_product, matrix-free components', 'Problem-level <w, J v> = <J^T w, v>: BOUNDED model tier only (fwd totals == rev totals == analytic on generated models)'],
     'C23': ['all generator classes (value maps, designs, strata, reproducibility): bounded exhaustive tier only', 'drivers/sampling/* counterparts', 'Driver._set_design_var (assumed)', 'parallel DOE (MPI)'],
     'C05': ['Indexer class hierarchy (shaped_instance / as_array / indexed_src_shape / _check_bounds): bounded exhaustive tier against NumPy only', 'index chains through promotes (C04)', 'known finding F5a (recorded, not repaired)'],
     'C29': ['write->read round trip through re/pyparsing: bounded exhaustive tier only', 'transfer_2Darray, transfer_keyvar, anchors with occurrence != 1', 'string values containing delimiters'],
@@ -342,6 +342,17 @@ EXTRA_TIERS['C23'] = _c23_extra
 def _c02_extra(tier, seed, native_run):
     out = run_lean(['adjoint_exchange', 'adjoint_exchange_masked', 'coo_adjoint', 'coo_adjoint_ind', 'transfer_adjoint', 'diag_adjoint'])
     out['violations'] = []
+    r = _run_bounded('c02_adjoint_models.py', [tier], timeout=6000)
+    if 'error' in r:
+        out['errors'].append('bounded adjoint-model tier could not run: ' + r['error'])
+        return out
+    out['bounded_model_adjointness'] = {
+        'note': 'BOUNDED stand-in (not counted in obligations): whole models with an implicit block under a linear solver; total jacobian in fwd mode == in rev mode == analytic, evaluated twice (solution caches must not leak between right-hand sides)',
+        'bound': 'n in {%s}; DirectSolver (rhs_checking None/False/True/check_zero, assembled jac none/csc/dense), ScipyKrylov (rhs_checking None/True), LinearBlockGS; dependent responses g = a + b f downstream of f with b in '
+                 '{1, -1, -0.4, 2.5, 0} (parallel / anti-parallel / zero adjoint right-hand sides); with and without a unit conversion inside the solved block' % ('2, 3' if tier != 'quick' else '3'),
+        'evaluations': r['evaluations'], 'distinct_nontrivial': r['distinct_nontrivial'], 'exhaustive': True, 'failures': r['n_failures'], 'samples': r['samples']}
+    for f in r['failures'][:3]:
+        out['violations'].append(dict(f, what='model adjointness: ' + f['kind'], witness_id='c02-%s' % json_key(f)))
     return out
 
 
